@@ -1,0 +1,193 @@
+//! `cid_queue.rs::CidQueue` (remote CIDs) and a mirror of the NEW_CONNECTION_ID arm of
+//! `Connection::process_payload` around it.
+//!
+//! Requests (first token `cidq` already removed):
+//!   new <cid>                         CidQueue::new
+//!   insert <seq> <rpt> <cid> <token>  CidQueue::insert (raw: any u64 values)
+//!   next | active | upd <cid>         CidQueue::{next, active+active_seq, update_initial_cid}
+//!   side <0|1>                        handler mirror: 1 = server
+//!   frame <seq> <rpt> <cid> <token>   handler mirror (see `frame` below)
+//!   sent <k>                          pops k entries of pending.retire_cids (what populate_packet does)
+//! State suffix of every response: `<cursor> <offset> <slot0> … <slotLEN-1>`, slot = `_` or `<cid>:<token|none>`.
+use super::{hex, num, unhex, Comp, BAD};
+use crate::cid_queue::{CidQueue, InsertError};
+use crate::frame::NewConnectionId;
+use crate::{ConnectionId, ResetToken, MAX_CID_SIZE, RESET_TOKEN_SIZE};
+
+pub(super) struct CidqC {
+    q: CidQueue,
+    /// mirror of `spaces[Data].pending.retire_cids`
+    pending: Vec<u64>,
+    server: bool,
+}
+
+impl CidqC {
+    pub(super) fn new() -> Self {
+        Self {
+            q: CidQueue::new(ConnectionId::new(&[0])),
+            pending: Vec::new(),
+            server: false,
+        }
+    }
+
+    fn state(&self) -> String {
+        let (buf, cursor, offset) = self.q.verif_state();
+        let mut s = format!("{cursor} {offset}");
+        for e in buf {
+            match e {
+                None => s.push_str(" _"),
+                Some((cid, tok)) => {
+                    s.push(' ');
+                    s.push_str(&hex(&cid));
+                    s.push(':');
+                    match tok {
+                        None => s.push_str("none"),
+                        Some(t) => s.push_str(&hex(&t[..])),
+                    }
+                }
+            }
+        }
+        s
+    }
+
+    fn pending(&self) -> String {
+        let v: Vec<String> = self.pending.iter().map(|x| x.to_string()).collect();
+        format!("[{}]", v.join(","))
+    }
+
+    /// Mirror of `Frame::NewConnectionId` in `Connection::process_payload` (connection/mod.rs).
+    /// Everything that is not `CidQueue` is copied from there; T1 (tools/gen.d/c03.py) anchors the
+    /// error codes and `MAX_PENDING_RETIRED_CIDS` of that arm to the source text.
+    fn frame(&mut self, frame: NewConnectionId) -> String {
+        if self.q.active().is_empty() {
+            return "err PROTOCOL_VIOLATION cids-not-in-use".into();
+        }
+        if frame.retire_prior_to > frame.sequence {
+            return "err PROTOCOL_VIOLATION retiring-unissued".into();
+        }
+        match self.q.insert(frame) {
+            Ok(None) => {}
+            Ok(Some((retired, _reset_token))) => {
+                const MAX_PENDING_RETIRED_CIDS: u64 = CidQueue::LEN as u64 * 10;
+                if (self.pending.len() as u64)
+                    .saturating_add(retired.end.saturating_sub(retired.start))
+                    > MAX_PENDING_RETIRED_CIDS
+                {
+                    return format!("err CONNECTION_ID_LIMIT_ERROR too-many-retired {} {}", self.pending(), self.state());
+                }
+                self.pending.extend(retired);
+            }
+            Err(InsertError::ExceedsLimit) => {
+                return format!("err CONNECTION_ID_LIMIT_ERROR limit {} {}", self.pending(), self.state());
+            }
+            Err(InsertError::Retired) => {
+                self.pending.push(frame.sequence);
+                return format!("ok discarded {} {}", self.pending(), self.state());
+            }
+        };
+        if self.server && self.q.active_seq() == 0 {
+            // update_rem_cid
+            if let Some((_reset_token, retired)) = self.q.next() {
+                self.pending.extend(retired);
+            }
+        }
+        format!("ok {} {}", self.pending(), self.state())
+    }
+}
+
+fn cid_tok(c: &str, t: &str) -> Option<(ConnectionId, ResetToken)> {
+    let c = unhex(c)?;
+    let t = unhex(t)?;
+    if c.len() > MAX_CID_SIZE || t.len() != RESET_TOKEN_SIZE {
+        return None;
+    }
+    let mut tok = [0u8; RESET_TOKEN_SIZE];
+    tok.copy_from_slice(&t);
+    Some((ConnectionId::new(&c), ResetToken::from(tok)))
+}
+
+impl Comp for CidqC {
+    fn exec(&mut self, w: &[&str]) -> String {
+        match w {
+            ["new", c] => {
+                let Some(c) = unhex(c) else { return BAD.into() };
+                if c.len() > MAX_CID_SIZE {
+                    return BAD.into();
+                }
+                self.q = CidQueue::new(ConnectionId::new(&c));
+                self.pending.clear();
+                format!("ok {}", self.state())
+            }
+            ["side", s] => {
+                self.server = match *s {
+                    "0" => false,
+                    "1" => true,
+                    _ => return BAD.into(),
+                };
+                "ok".into()
+            }
+            ["insert", seq, rpt, c, t] => {
+                let (Some(sequence), Some(retire_prior_to), Some((id, reset_token))) =
+                    (num(seq), num(rpt), cid_tok(c, t))
+                else {
+                    return BAD.into();
+                };
+                let r = self.q.insert(NewConnectionId {
+                    sequence,
+                    retire_prior_to,
+                    id,
+                    reset_token,
+                });
+                match r {
+                    Ok(None) => format!("ok none {}", self.state()),
+                    Ok(Some((r, tok))) => {
+                        format!("ok {} {} {} {}", r.start, r.end, hex(&tok[..]), self.state())
+                    }
+                    Err(InsertError::Retired) => format!("err retired {}", self.state()),
+                    Err(InsertError::ExceedsLimit) => format!("err limit {}", self.state()),
+                }
+            }
+            ["next"] => match self.q.next() {
+                None => format!("none {}", self.state()),
+                Some((tok, r)) => {
+                    format!("ok {} {} {} {}", hex(&tok[..]), r.start, r.end, self.state())
+                }
+            },
+            ["active"] => format!("ok {} {}", hex(&self.q.active()), self.q.active_seq()),
+            ["upd", c] => {
+                let Some(c) = unhex(c) else { return BAD.into() };
+                if c.len() > MAX_CID_SIZE {
+                    return BAD.into();
+                }
+                self.q.update_initial_cid(ConnectionId::new(&c));
+                format!("ok {}", self.state())
+            }
+            ["frame", seq, rpt, c, t] => {
+                let (Some(sequence), Some(retire_prior_to), Some((id, reset_token))) =
+                    (num(seq), num(rpt), cid_tok(c, t))
+                else {
+                    return BAD.into();
+                };
+                self.frame(NewConnectionId {
+                    sequence,
+                    retire_prior_to,
+                    id,
+                    reset_token,
+                })
+            }
+            ["sent", k] => {
+                let Some(k) = num(k) else { return BAD.into() };
+                if k > 64 {
+                    return BAD.into();
+                }
+                for _ in 0..k {
+                    if self.pending.pop().is_none() {
+                        break;
+                    }
+                }
+                format!("ok {}", self.pending())
+            }
+            _ => BAD.into(),
+        }
+    }
+}
